@@ -601,6 +601,13 @@ OpPanicked ==
 CrashStep ==
   /\ Chk("C01", "operation-crashed:" \o E.was, FALSE)
   /\ Chk("C05", "process-crashed-in-safe-call:" \o E.was, FALSE)
+  \* the property whose operation it was
+  /\ Chk("C09", "parallel-query-crashed", ~(E.was = "query" /\ "args" \in DOMAIN E /\ "pool" \in DOMAIN E.args))
+  /\ Chk("C03", "query-crashed", ~(E.was \in {"query", "qmut"} /\ "args" \in DOMAIN E /\ "pool" \notin DOMAIN E.args))
+  /\ Chk("C11", "deserialization-of-untrusted-input-crashed", E.was # "deser_mut")
+  /\ Chk("C06", "round-trip-crashed", E.was # "serde")
+  /\ Chk("C10", "copy-crashed", E.was \notin {"clone", "clone_from"})
+  /\ Chk("C15", "resource-access-crashed", E.was \notin {"getmut", "viewres"})
   /\ UNCHANGED <<issued, tok, cnt, twin, heap>>
 LightStep ==
   /\ \A w \in Worlds : PostWs[w].live =>
